@@ -530,8 +530,29 @@ class Exec:
                 raise Unsupported("import of module constant " + dotted)
             return LibRef(dotted)
         if name in module.assigns:
-            # module-level constant: evaluate its expression in a scratch frame
-            raise Unsupported("module-level constant " + name)
+            # module-level constant: its expression is evaluated once per path, at first use, in the module's own scope; the
+            # resulting OBJECT is then shared by every later use on that path (so in-place writes to it persist, as in Python)
+            if st is None:
+                raise Unsupported("module-level constant " + name)
+            store = st.roots.setdefault("modglobals", {})
+            key = module.relpath + "::" + name
+            if key not in store:
+                if key in getattr(self, "_modglobal_busy", set()):
+                    raise Unsupported("recursive module-level constant " + name)
+                self._modglobal_busy = getattr(self, "_modglobal_busy", set()) | {key}
+                try:
+                    fr = Frame(module)
+                    st.frames.append(fr)
+                    try:
+                        res = self.ev(module.assigns[name], st)
+                    finally:
+                        st.frames.pop()
+                finally:
+                    self._modglobal_busy = self._modglobal_busy - {key}
+                if len(res) != 1 or isinstance(res[0][1], Abort) or res[0][0] is not st:
+                    raise Unsupported("module-level constant %s does not evaluate on a single path" % name)
+                store[key] = res[0][1]
+            return store[key]
         if name in BUILTIN_NAMES:
             return Builtin(name)
         if name in EXC_NAMES:
@@ -619,6 +640,26 @@ class Exec:
                 raise PathDead(str(e))
         if isinstance(op, ast.Pow):
             return L.power(a, b)
+        if isinstance(op, (ast.BitAnd, ast.BitOr, ast.BitXor, ast.RShift, ast.LShift)):
+            # integer bit operations: only on CONCRETE integers / integer arrays (index bookkeeping), by the checker's numpy
+            def conc_int(x):
+                if isinstance(x, bool):
+                    return None
+                if isinstance(x, int):
+                    return x
+                if isinstance(x, SArr) and x.kind == "i":
+                    vals = [v if isinstance(v, int) and not isinstance(v, bool) else V.conc(v) for v in x.flat()]
+                    if all(isinstance(v, int) and not isinstance(v, bool) for v in vals):
+                        return _np.array(vals, dtype=_np.int64).reshape(x.shape)
+                return None
+            ca, cb = conc_int(a), conc_int(b)
+            if ca is not None and cb is not None:
+                f = {ast.BitAnd: lambda x, y: x & y, ast.BitOr: lambda x, y: x | y, ast.BitXor: lambda x, y: x ^ y,
+                     ast.RShift: lambda x, y: x >> y, ast.LShift: lambda x, y: x << y}[type(op)]
+                r = f(ca, cb)
+                if isinstance(r, _np.ndarray):
+                    return L.mk([int(v) for v in r.reshape(-1)], r.shape, "i")
+                return int(r)
         if isinstance(op, ast.BitAnd):
             return L.binop("and", a, b)
         if isinstance(op, ast.BitOr):
@@ -1076,6 +1117,25 @@ class Exec:
 
     def ev_GeneratorExp(self, node, st):
         return self.comprehension(node, st, list)
+
+    def ev_DictComp(self, node, st):
+        """{k: v for ... in <concretely sized iterable>}: evaluated as the list of (k, v) pairs."""
+        pair = ast.Tuple(elts=[node.key, node.value], ctx=ast.Load())
+        lc = ast.ListComp(elt=pair, generators=node.generators)
+        ast.copy_location(lc, node)
+        ast.fix_missing_locations(lc)
+        out = []
+        for s2, v in self.comprehension(lc, st, list):
+            if isinstance(v, list):
+                d = {}
+                for kv in v:
+                    k = kv[0]
+                    if not isinstance(k, (str, int, bool, tuple)):
+                        raise Unsupported("dict comprehension with a symbolic key")
+                    d[k] = kv[1]
+                v = d
+            out.append((s2, v))
+        return out
 
     def ev_SetComp(self, node, st):
         out = []
@@ -1626,6 +1686,18 @@ class Exec:
             return
         if hasattr(obj, "setattr"):
             obj.setattr(self, st, name, v)
+            return
+        if isinstance(obj, SArr) and name == "shape":
+            # in-place reshape of the array OBJECT (every alias of the object sees the new shape)
+            shp = tuple(v) if isinstance(v, (tuple, list)) else (v,)
+            if not all(isinstance(x, int) for x in shp):
+                raise Unsupported("symbolic shape assignment")
+            try:
+                obj.a.shape = shp
+            except (AttributeError, ValueError):
+                self.ctx.obligation("no-raise:shape", False)
+                raise PathDead("shape assignment")
+            st.log.append(("arr", id(_root_of(obj.a))))
             return
         raise Unsupported("attribute store on %r" % (obj,))
 
